@@ -63,7 +63,20 @@ def run(chk):
                                                                     "original_history": h["k"], "seed": chk.seed}))
         found = True
     tc.report_correspondence(chk, "C04", data, found)
+    # scene isolation on the VISUAL trackers: oracles applied directly to real VisualSort / BatchVisualSort runs
+    # (no cross-scene attachment; interleaved run vs per-scene projected run), tools/props/visual_c04.py
+    try:
+        from props import visual_c04
+        visual_c04.c04_visual_stage(chk)
+    except Exception:
+        import traceback
+        chk.violation("C04:visual-stage-error", "the VisualSort stage of the C04 check failed to run",
+                      {"error": traceback.format_exc()[-3000:]}, found_input=False)
 
 
 def replay(chk, path):
+    from props import visual_c04
+    r = visual_c04.c04_visual_replay(chk, path)
+    if r is not None:
+        return r
     return tc.generic_replay(chk, path, "C04")
